@@ -19,7 +19,8 @@ from ..interp import Interp, Hooks, Budget
 from ..state import State, Obj, IntV, PtrV, NULL, MAXLEN
 from ..terms import Lin, ZERO
 from .. import facts as factsmod
-from .common import short, fn_loc
+from . import own
+from .common import short, fn_loc, slot_subst, subst, robust, congruent
 
 LEVEL = 'proof'
 EXPLANATION = ('abstract interpretation of the whole parser (apply_format with fetch_prefix, next_format, parse_format inlined) over a '
@@ -53,6 +54,10 @@ class ParserHooks(Hooks):
 
     def __init__(self, m):
         self.m = m
+
+    def on_access(self, I, st, inst, kind, p, nbytes):
+        if kind == 'load' and p.obj == 'FMT':
+            st.ev('text-read', inst, p.off)
 
     def should_inline(self, I, name, fn):
         d = fn.dem
@@ -92,6 +97,10 @@ def text_state():
     fmt.attrs['cstr_len'] = Lin.atom('L')
     st.objs['FMT'] = fmt
     w = Obj('ext', Lin.const(16))
+    # the cursor into the format text is widened to "any position the verified invariants allow"; for a parser over arbitrary text
+    # every such position is reachable (all-literal text in front of it), so a model over the cursor's symbol is a witness.  Widened
+    # integers (indices, counters) are not exempt.
+    st.flags['allow-abstract-witness'] = re.compile(r'\bwo#\d+')
     w.cells[8] = (8, PtrV('FMT', Lin.atom('c0')))
     w.lazy = True
     st.objs['W'] = w
@@ -120,6 +129,7 @@ def parser(run, m, F, E):
         total_paths += len(outs)
         subject = short(f.dem, 90)
         bounds_v, bounds_u, asserts, progress, disp, kinds = [], [], [], [], [], {}
+        abstract_aborts, progress_u = [], []
         for o in outs:
             s2 = o.st
             kinds[o.kind] = kinds.get(o.kind, 0) + 1
@@ -145,7 +155,13 @@ def parser(run, m, F, E):
             if o.kind == 'abort':
                 msg = o.info[1] if o.info and o.info[0] == 'assert' else str(o.info[0] if o.info else '?')
                 if msg not in CONTRACT:
-                    asserts.append('assertion / abort "%s" is reachable from the format text at %s' % (msg, loc(m, o.info[2]) if o.info and len(o.info) > 2 else ''))
+                    txt = 'assertion / abort "%s" is reachable from the format text at %s' % (msg, loc(m, o.info[2]) if o.info and len(o.info) > 2 else '')
+                    if any(e[0] == 'widen' for e in s2.events):
+                        # reached only in the abstraction of a loop (e.g. a fact about the unit at the cursor is not carried over the
+                        # back edge): to be confirmed on an exactly interpreted prefix before it is called reachable
+                        abstract_aborts.append(txt)
+                    else:
+                        asserts.append(txt)
             if o.kind == 'throw':
                 t = o.val[0] if o.val else None
                 ts = t if isinstance(t, (tuple, list)) else [t]
@@ -162,12 +178,76 @@ def parser(run, m, F, E):
                     if isinstance(bv, PtrV) and isinstance(ev, PtrV) and bv.obj == 'FMT' and ev.obj == 'FMT':
                         adv.append(ev.off - bv.off)
                 if adv and not any(s2.is_ge0(a - 1) is True for a in adv):
-                    progress.append('an iteration of the loop in %s may not advance the cursor (advances: %s)' % (m.dem(fnname)[:50], adv))
+                    # the cursor itself does not provably advance: the position that is read (cursor + index) may
+                    fnx = m.func(fnname)
+                    wi = max([k2 for k2, e in enumerate(s2.events) if e[0] == 'widen' and e[1] == fnname and e[2] == hdr] or [-1])
+                    hb = s2.flags.get('hbegin:%s:%s' % (fnname, hdr)) or b
+                    he = s2.flags.get('hend:%s:%s' % (fnname, hdr)) or e2
+                    reads = [e[2] for e in s2.events[wi + 1:] if e[0] == 'text-read']
+                    done = False
+                    if reads:
+                        p0 = reads[0]
+                        pn = subst(p0, slot_subst(hb, he))
+                        if pn is not None and s2.is_ge0(pn - p0 - 1) is True:
+                            done = True
+                    if not done:
+                        # an index that moves on while the cursor stands still also advances the position read
+                        for nm2, bv2 in hb.items():
+                            ev2 = he.get(nm2)
+                            if isinstance(bv2, IntV) and isinstance(ev2, IntV) and bv2.bits == 64:
+                                b0, e0 = I.as_u(s2, bv2), I.as_u(s2, ev2)
+                                if b0 is not None and e0 is not None and (s2.is_ge0(e0 - b0 - 1) is True or congruent(s2, e0, b0 + 1, 64)):
+                                    done = None
+                        if done is None:
+                            progress_u.append('the loop in %s moves an index, not the cursor: progress of the position read not decided' % (m.dem(fnname)[:50],))
+                    if done is False:
+                        wit = None
+                        for a in adv:
+                            if robust([a]):
+                                wit = s2.find_model([a], lambda v: v[0] <= 0)
+                                if wit is not None:
+                                    break
+                        if wit is not None:
+                            progress.append('an iteration of the loop in %s may not advance the cursor (advances: %s); witness %s' % (m.dem(fnname)[:50], adv, own.fmt_env(wit)))
+                        else:
+                            progress_u.append('advance of the loop in %s not decided (cursor moves by %s)' % (m.dem(fnname)[:50], adv))
+        confirm_u = []
+        if abstract_aborts and not asserts:
+            class XH(ParserHooks):
+                unroll = 2
+                widen_on_entry = False
+                stop_at_widen = True
+                max_paths = 2500
+                max_steps = 120000
+            IX = Interp(m, F, E, XH(m))
+            stx = text_state()
+            argsx = [PtrV('W')] + [IX.fresh_ptr(stx, 'arg') for p in f.params[1:]]
+            try:
+                outsx = IX.run(IX.start(f, argsx, stx))
+            except Budget:
+                outsx = None
+            if outsx is None:
+                confirm_u.append(abstract_aborts[0] + ' (seen in the abstraction of a loop; exact prefix too large to confirm)')
+            else:
+                for ox in outsx:
+                    for e in ox.st.events:
+                        if e[0] in ('oob', 'oob?') and isinstance(e[3], PtrV) and e[3].obj == 'FMT' and not bounds_v:
+                            env = e[6] if len(e) > 6 else None
+                            if e[0] == 'oob' or env is not None:
+                                bounds_v.append('%s of %r byte(s) at text offset %r may lie beyond the terminating NUL (text length L) at %s%s' % (
+                                    e[2], e[4], e[3].off, loc(m, e[1]), '; witness ' + ', '.join('%s=%s' % (k if isinstance(k, str) else 'unit', v) for k, v in sorted(env.items(), key=repr)[:6]) if env else ''))
+                    if ox.kind == 'abort':
+                        msg = ox.info[1] if ox.info and ox.info[0] == 'assert' else str(ox.info[0] if ox.info else '?')
+                        if msg not in CONTRACT:
+                            asserts.append('assertion / abort "%s" is reachable from the format text (on an exactly interpreted prefix) at %s' % (
+                                msg, loc(m, ox.info[2]) if ox.info and len(ox.info) > 2 else ''))
+                if not asserts and abstract_aborts:
+                    confirm_u.append(abstract_aborts[0] + ' - only in the abstraction of a loop, not on the exactly interpreted first iterations: not decided')
         run.ob('R10.1', subject, not bounds_v and not bounds_u if not bounds_v else False,
                bounds_v[0] if bounds_v else (bounds_u[0] if bounds_u else 'every read of the text is at an offset <= L on all %d paths' % len(outs)),
                disc='bounds', loc=fn_loc(f)) if (bounds_v or not bounds_u) else run.ob('R10.1', subject, None, bounds_u[0], disc='bounds')
-        run.ob('R10.3', subject, not asserts, asserts[0] if asserts else 'no assertion reachable from the text; exits: %s' % kinds, disc='parser exits', loc=fn_loc(f))
-        run.ob('R10.4', subject, not progress, progress[0] if progress else 'every loop iteration advances the cursor', disc='progress', loc=fn_loc(f))
+        run.ob('R10.3', subject, False if asserts else (None if confirm_u else True), asserts[0] if asserts else (confirm_u[0] if confirm_u else 'no assertion reachable from the text; exits: %s' % kinds), disc='parser exits', loc=fn_loc(f))
+        run.ob('R10.4', subject, False if progress else (None if progress_u else True), progress[0] if progress else (progress_u[0] if progress_u else 'every loop iteration advances the cursor'), disc='progress', loc=fn_loc(f))
         run.ob('R10.5', subject, not disp, disp[0] if disp else 'table index below num_formatters at every dispatch', disc='dispatch', loc=fn_loc(f))
         run.sample(dict(function=f.dem[:80], paths=len(outs), exits=kinds))
     run.counts['parser paths'] = total_paths
